@@ -178,6 +178,57 @@ def fam_int_options_nonintegral(tier):
                         "final=" + ftxt, "path=" + ptag], d, props, mods)
 
 
+def fam_magnitude(tier):
+    """equality (options, ==, !=) on values of small (1e-7) and large (1e7) magnitude: the documented precision is
+    relative, so values a factor 2-5 apart are different whatever their magnitude.  Values closer than 5e-8 in
+    absolute terms are not generated (numpy's implicit absolute tolerance 1e-8 would call them equal)."""
+    # (tag, node unit, options forms, accepted finals, rejected finals); finals = (text, written unit)
+    sets = [
+        ("1e-7-s", "s",
+         [("per-line-ns", [OPT("100", "ns"), OPT("200", "ns")]), ("list-ns", [OPTS(["100", "200"], "ns")]),
+          ("list-s", [OPTS(["1e-7", "2e-7"], "s")]), ("list-plain", [OPTS(["1e-7", "2e-7"])]),
+          ("two-units", [OPT("1e-7"), OPTS(["0.2"], "us")])],
+         [("1e-7", None), ("2e-7", None), ("200", "ns"), ("0.2", "us"), ("0.1", "us")],
+         [("5e-7", None), ("3e-7", None), ("500", "ns"), ("300", "ns"), ("0.5", "us"), ("4e-7", "s"), ("1e-6", None)]),
+        ("1e-7-plain", None,
+         [("per-line", [OPT("1e-7"), OPT("2e-7")]), ("list", [OPTS(["1e-7", "2e-7"])]),
+          ("two-lists", [OPTS(["1e-7"]), OPTS(["2e-7"])])],
+         [("1e-7", None), ("2e-7", None), ("0.0000002", None)],
+         [("5e-7", None), ("3e-7", None), ("4e-7", None), ("1e-6", None)]),
+        ("1e7-m", "m",
+         [("list", [OPTS(["1e7", "2e7"])]), ("list-km", [OPTS(["10000", "20000"], "km")])],
+         [("1e7", None), ("20000000", None), ("10000", "km")],
+         [("10000100", None), ("3e7", None), ("10010", "km"), ("5e7", None)]),
+    ]
+    for stag, unit, forms, good, bad in sets:
+        v_ok = good[0][0]
+        finals = [("on", f) for f in good] + [("off", f) for f in bad]
+        # options
+        for (fname, props), (ftag, final) in itertools.product(forms, finals):
+            for ptag, d, mods, conv, interm in paths_numeric("float", unit, final, v_ok, None, tier):
+                if tier != "thorough" and ptag not in ("def", "mod1", "decl"):
+                    continue
+                yield (["type=float", "unit=" + str(unit), "kind=options", "magnitude=" + stag, "form=" + fname,
+                        "final=" + ftag, "path=" + ptag], d, props, mods)
+        # == / != conditions against the first two accepted values
+        a = ["num", good[0][0], unit]
+        b = ["num", good[1][0], unit]
+        a2 = ["num", "100", "ns"] if unit == "s" else a
+        conds = [("eq", ["cmp", "==", SELF, a]), ("eq-reversed", ["cmp", "==", a, SELF]),
+                 ("eq-or-eq", ["or", ["cmp", "==", SELF, a], ["cmp", "==", SELF, b]]),
+                 ("ne", ["cmp", "!=", SELF, a]), ("ne-and-ne", ["and", ["cmp", "!=", SELF, a], ["cmp", "!=", SELF, b]]),
+                 ("eq-other-unit", ["cmp", "==", SELF, a2]), ("ne-other-unit", ["cmp", "!=", a2, SELF])]
+        for (cname, expr), (ftag, final) in itertools.product(conds, finals):
+            for ptag, d, mods, conv, interm in paths_numeric("float", unit, final, final[0] if final[1] is None
+                                                             else v_ok, None, tier):
+                if tier != "thorough" and ptag not in ("def", "mod1", "decl"):
+                    continue
+                if interm:
+                    continue
+                yield (["type=float", "unit=" + str(unit), "kind=condition", "magnitude=" + stag, "cond=" + cname,
+                        "final=" + ftag, "path=" + ptag], d, [COND(expr)], mods)
+
+
 OPS = ("<", "<=", ">", ">=", "==", "!=")
 
 
@@ -494,11 +545,12 @@ def fam_dims_missing(tier):
                [row, D("a", typ, {"ref": {"src": None, "path": "row", "slice": [[1, 3]]}}, None, [[2, 2]])], [], [])
 
 
-FAMILIES = dict(int_options_nonintegral=fam_int_options_nonintegral, dims_missing=fam_dims_missing,
+FAMILIES = dict(magnitude=fam_magnitude, int_options_nonintegral=fam_int_options_nonintegral,
+                dims_missing=fam_dims_missing,
                 num_options=fam_num_options, num_condition=fam_num_condition, num_pairs=fam_num_pairs,
                 str=fam_str, bool=fam_bool, declared=fam_declared, dims=fam_dims)
 # families in which both verdicts must occur (vacuity guard)
-BOTH = ["num_options", "num_condition", "num_pairs", "str", "bool", "declared", "dims", "dims_missing"]
+BOTH = ["num_options", "num_condition", "num_pairs", "str", "bool", "declared", "dims", "dims_missing", "magnitude"]
 
 
 # ------------------------------------------------------------------------------------------------ judging
